@@ -35,6 +35,11 @@ Genuine == {
   EE("LQ",  "I2", "kI2", {"server"}, "ok", {}),            \* precertificate issued by the CA itself
   EE("LNC", "I2", "kI2", {"server"}, "noncritical", {}),   \* malformed poison
   EE("LNN", "I2", "kI2", {"server"}, "nonnull", {}),
+  EE("LNT", "I2", "kI2", {"server"}, "nullTrailing", {}),
+  EE("LNV", "I2", "kI2", {"server"}, "nullTrailingTLV", {}),
+  EE("LWT", "I2", "kI2", {"server"}, "wrongTag", {}),
+  EE("LLF", "I2", "kI2", {"server"}, "longFormNull", {}),
+  EE("LEV", "I2", "kI2", {"server"}, "empty", {}),
   [EE("LCA", "I1", "kI1", {}, "none", {}) EXCEPT !.isCA = TRUE],     \* a CA certificate submitted as leaf
   EE("LL",  "L1", "kL1", {"server"}, "none", {})           \* signed with the key of L1, which is not a CA
 }
@@ -85,8 +90,12 @@ Perturb(s) ==
   \cup {Pt("forge", [s EXCEPT ![i] = s[i] \o "~f"]) : i \in {j \in 1..Len(s) : s[j] \in GenuineIds}}
   \cup {Pt("garble", [s EXCEPT ![i] = "BAD"]) : i \in 1..Len(s)}
 
-P0 == {[tags |-> <<>>, ch |-> b] : b \in Bases}
-P1 == UNION {{[tags |-> <<q.tag>>, ch |-> q.ch] : q \in Perturb(p.ch)} : p \in P0}
+\* chains submitted as they are only (their perturbations would repeat those of the LNC / LNN chains): the further
+\* malformed-poison leaves
+PlainBases == {<<l, "I2", "I1", "R1">> : l \in {"LNT", "LNV", "LWT", "LLF", "LEV"}}
+              \cup {<<l, "I2", "I1">> : l \in {"LNT", "LNV"}}
+P0 == {[tags |-> <<>>, ch |-> b] : b \in Bases \cup PlainBases}
+P1 == UNION {{[tags |-> <<q.tag>>, ch |-> q.ch] : q \in Perturb(b)} : b \in Bases}
 Ch01 == {p.ch : p \in P0 \cup P1}
 Ch2 == IF Depth >= 2 THEN UNION {{q.ch : q \in Perturb(c)} : c \in {p.ch : p \in P1}} \ Ch01 ELSE {}
 Cases == {[ch |-> p.ch, tags |-> p.tags, T |-> t] : p \in P0 \cup P1, t \in TNames}
